@@ -66,6 +66,18 @@ struct Proc {
     virtual int64_t expect_out(int n) const {
         return n;
     }
+    // a copy of the processor INCLUDING its state (nullptr: the class is not copyable)
+    virtual std::unique_ptr<Proc> clone() const {
+        return nullptr;
+    }
+    // true: a copy is an independent object (value semantics); false: the library documents / implements the class as a
+    // handle whose copies share one state (Agc, FIRResampler): only "continue with the copy, drop the original" is meaningful
+    bool value_copy{true};
+    // an invalid call (wrong granularity / mismatched lengths) that must be rejected by exception WITHOUT side effects:
+    // 0 = not applicable for this class, 1 = rejected, -1 = accepted
+    virtual int bad_call(uint32_t) {
+        return 0;
+    }
 };
 
 namespace detail {
@@ -86,6 +98,9 @@ struct FirP : Proc {
         memory = h.size() - 1;
         in_width = out_width = std::is_same_v<T, cmplx_t> ? 2 : 1;
     }
+    std::unique_ptr<Proc> clone() const override {
+        return std::make_unique<FirP<T>>(*this);
+    }
     void call(const double* in, int n, std::vector<std::vector<double>>& ch) override {
         if constexpr (std::is_same_v<T, cmplx_t>) {
             append(ch[0], f.process(to_carr(in, size_t(n))));
@@ -103,6 +118,9 @@ struct FftFirP : Proc {
         memory = h.size() - 1;
         block = f.block_size();
         in_width = out_width = std::is_same_v<T, cmplx_t> ? 2 : 1;
+    }
+    std::unique_ptr<Proc> clone() const override {
+        return std::make_unique<FftFirP<T>>(*this);
     }
     void call(const double* in, int n, std::vector<std::vector<double>>& ch) override {
         if constexpr (std::is_same_v<T, cmplx_t>) {
@@ -127,6 +145,9 @@ struct FftFirMixedP : Proc {
         block = f.block_size();
         in_width = out_width = rin ? 1 : 2;
     }
+    std::unique_ptr<Proc> clone() const override {
+        return std::make_unique<FftFirMixedP>(*this);
+    }
     void call(const double* in, int n, std::vector<std::vector<double>>& ch) override {
         if (real_in) {
             append(ch[0], f.process(to_arr(in, size_t(n))));
@@ -139,18 +160,36 @@ struct FftFirMixedP : Proc {
     }
 };
 
+template<class C>
 struct ResampP : Proc {
-    std::unique_ptr<dsplib::IResampler> r;
-    explicit ResampP(std::unique_ptr<dsplib::IResampler> p, int mem)
-      : r(std::move(p)) {
-        granule = r->decim_rate();
+    C r;
+    ResampP(C c, int mem, bool value)
+      : r(std::move(c)) {
+        granule = r.decim_rate();
         memory = mem;
+        value_copy = value;
+    }
+    std::unique_ptr<Proc> clone() const override {
+        return std::make_unique<ResampP<C>>(*this);
     }
     void call(const double* in, int n, std::vector<std::vector<double>>& ch) override {
-        append(ch[0], r->process(to_arr(in, size_t(n))));
+        append(ch[0], r.process(to_arr(in, size_t(n))));
     }
     int64_t expect_out(int n) const override {
-        return int64_t(n) * r->interp_rate() / r->decim_rate();
+        return int64_t(n) * r.interp_rate() / r.decim_rate();
+    }
+    int bad_call(uint32_t seed) override {
+        if (granule <= 1) {
+            return 0;
+        }
+        // a frame that is not a multiple of the documented granule
+        const int n = granule * int(1 + seed % 3) + 1 + int(seed % uint32_t(granule - 1));
+        try {
+            (void)r.process(arr_real(n));
+        } catch (const std::exception&) {
+            return 1;
+        }
+        return -1;
     }
 };
 
@@ -161,6 +200,9 @@ struct DelayP : Proc {
       : d(std::move(dd)) {
         memory = len;
         in_width = out_width = std::is_same_v<T, cmplx_t> ? 2 : 1;
+    }
+    std::unique_ptr<Proc> clone() const override {
+        return std::make_unique<DelayP<T>>(*this);
     }
     void call(const double* in, int n, std::vector<std::vector<double>>& ch) override {
         if constexpr (std::is_same_v<T, cmplx_t>) {
@@ -177,6 +219,9 @@ struct MedianP : Proc {
       : f(n, init) {
         memory = n;
     }
+    std::unique_ptr<Proc> clone() const override {
+        return std::make_unique<MedianP>(*this);
+    }
     void call(const double* in, int n, std::vector<std::vector<double>>& ch) override {
         append(ch[0], f.process(to_arr(in, size_t(n))));
     }
@@ -190,6 +235,9 @@ struct MaP : Proc {
         memory = n;
         block = n;
         in_width = out_width = std::is_same_v<T, cmplx_t> ? 2 : 1;
+    }
+    std::unique_ptr<Proc> clone() const override {
+        return std::make_unique<MaP<T>>(*this);
     }
     void call(const double* in, int n, std::vector<std::vector<double>>& ch) override {
         if constexpr (std::is_same_v<T, cmplx_t>) {
@@ -207,6 +255,9 @@ struct HilbertP : Proc {
         memory = f.impz().size() - 1;
         out_width = 2;
     }
+    std::unique_ptr<Proc> clone() const override {
+        return std::make_unique<HilbertP>(*this);
+    }
     void call(const double* in, int n, std::vector<std::vector<double>>& ch) override {
         append(ch[0], f.process(to_arr(in, size_t(n))));
     }
@@ -220,6 +271,9 @@ struct TunerP : Proc {
         block = fs;
         in_width = out_width = 2;
     }
+    std::unique_ptr<Proc> clone() const override {
+        return std::make_unique<TunerP>(*this);
+    }
     void call(const double* in, int n, std::vector<std::vector<double>>& ch) override {
         append(ch[0], t.process(to_carr(in, size_t(n))));
     }
@@ -230,10 +284,14 @@ struct AgcP : Proc {
     dsplib::Agc a;
     AgcP(double target, double maxg, int avg, double tr, double tf)
       : a(target, maxg, avg, tr, tf) {
+        value_copy = false;   // Agc is a handle: copies share one implementation object
         memory = avg;
         block = avg;
         nch = 2;
         in_width = out_width = std::is_same_v<T, cmplx_t> ? 2 : 1;
+    }
+    std::unique_ptr<Proc> clone() const override {
+        return std::make_unique<AgcP<T>>(*this);
     }
     void call(const double* in, int n, std::vector<std::vector<double>>& ch) override {
         if constexpr (std::is_same_v<T, cmplx_t>) {
@@ -257,6 +315,9 @@ struct DynP : Proc {
         memory = mem;
         nch = 2;
     }
+    std::unique_ptr<Proc> clone() const override {
+        return std::make_unique<DynP<D>>(*this);
+    }
     void call(const double* in, int n, std::vector<std::vector<double>>& ch) override {
         auto r = d.process(to_arr(in, size_t(n)));
         append(ch[0], r.out);
@@ -276,6 +337,9 @@ struct AdaptP : Proc {
         out_width = std::is_same_v<T, cmplx_t> ? 2 : 1;
         ch1_width = out_width;
     }
+    std::unique_ptr<Proc> clone() const override {
+        return std::make_unique<AdaptP<F, T>>(*this);
+    }
     void call(const double* in, int n, std::vector<std::vector<double>>& ch) override {
         dsplib::base_array<T> x(n);
         dsplib::base_array<T> d(n);
@@ -291,6 +355,17 @@ struct AdaptP : Proc {
         auto r = f.process(x, d);
         append(ch[0], r.y);
         append(ch[1], r.e);
+    }
+    int bad_call(uint32_t seed) override {
+        // input and desired signal of different lengths
+        dsplib::base_array<T> x(3 + int(seed % 5));
+        dsplib::base_array<T> d(x.size() + 1 + int(seed % 2));
+        try {
+            (void)f.process(x, d);
+        } catch (const std::exception&) {
+            return 1;
+        }
+        return -1;
     }
 };
 
@@ -316,48 +391,37 @@ inline std::unique_ptr<Proc> make_proc(const ProcSpec& s) {
     case PK_DECIM: {
         const int m = I(0);
         const int hl = I(1);
-        std::unique_ptr<dsplib::IResampler> r;
         if (hl > 0) {
-            r = std::make_unique<dsplib::FIRDecimator>(m, positive_h(s.cseed, hl));
-        } else {
-            r = std::make_unique<dsplib::FIRDecimator>(m);
+            return std::make_unique<ResampP<dsplib::FIRDecimator>>(dsplib::FIRDecimator(m, positive_h(s.cseed, hl)), hl, true);
         }
-        return std::make_unique<ResampP>(std::move(r), (hl > 0 ? hl : 24 * m));
+        return std::make_unique<ResampP<dsplib::FIRDecimator>>(dsplib::FIRDecimator(m), 24 * m, true);
     }
     case PK_INTERP: {
         const int l = I(0);
         const int hl = I(1);
-        std::unique_ptr<dsplib::IResampler> r;
         if (hl > 0) {
-            r = std::make_unique<dsplib::FIRInterpolator>(l, positive_h(s.cseed, hl));
-        } else {
-            r = std::make_unique<dsplib::FIRInterpolator>(l);
+            return std::make_unique<ResampP<dsplib::FIRInterpolator>>(dsplib::FIRInterpolator(l, positive_h(s.cseed, hl)), hl / l + 1, true);
         }
-        return std::make_unique<ResampP>(std::move(r), (hl > 0 ? hl / l + 1 : 24));
+        return std::make_unique<ResampP<dsplib::FIRInterpolator>>(dsplib::FIRInterpolator(l), 24, true);
     }
     case PK_RATECONV: {
         const int l = I(0);
         const int m = I(1);
         const int hl = I(2);
-        std::unique_ptr<dsplib::IResampler> r;
         if (hl > 0) {
-            r = std::make_unique<dsplib::FIRRateConverter>(l, m, positive_h(s.cseed, hl));
-        } else {
-            r = std::make_unique<dsplib::FIRRateConverter>(l, m);
+            return std::make_unique<ResampP<dsplib::FIRRateConverter>>(dsplib::FIRRateConverter(l, m, positive_h(s.cseed, hl)), hl / l + 1, true);
         }
-        return std::make_unique<ResampP>(std::move(r), (hl > 0 ? hl / l + 1 : 24 * std::max(1, m / l)));
+        return std::make_unique<ResampP<dsplib::FIRRateConverter>>(dsplib::FIRRateConverter(l, m), 24 * std::max(1, m / l), true);
     }
     case PK_RESAMPLER: {
         const int ofs = I(0);
         const int ifs = I(1);
         const int hl = I(2);
-        std::unique_ptr<dsplib::IResampler> r;
+        // FIRResampler is a handle (shared_ptr to the concrete resampler): copies share its state
         if (hl > 0) {
-            r = std::make_unique<dsplib::FIRResampler>(ofs, ifs, positive_h(s.cseed, hl));
-        } else {
-            r = std::make_unique<dsplib::FIRResampler>(ofs, ifs);
+            return std::make_unique<ResampP<dsplib::FIRResampler>>(dsplib::FIRResampler(ofs, ifs, positive_h(s.cseed, hl)), 48, false);
         }
-        return std::make_unique<ResampP>(std::move(r), 48);
+        return std::make_unique<ResampP<dsplib::FIRResampler>>(dsplib::FIRResampler(ofs, ifs), 48, false);
     }
     case PK_DELAY_R:
         if (I(1)) {
